@@ -320,6 +320,15 @@ def main():
                                    for k, v in verdict.known_examples.items()},
         "differential_only": ["bytes/bytearray/stream inputs and TypeError on non-text (implementation only)",
                               "code points outside ASCII + coq/gen/ParseTables.tbl_chars are outside the model"],
+        "guard_matcher_correspondence": {
+            "F-C14-bigmonth": {
+                "theorem": "C14_parse_total (guarded), C14_escape_characterised, C14_parse_total_unguarded_refuted",
+                "guard": "the outcome is not OutEscape ValueErrorNoStr; by C14_escape_characterised an escape happens iff "
+                         "_build_naive raised the unprintable IllegalMonthError (month >= 10^int_max_str_digits)",
+                "matcher": "m_unprintable_month: implementation outcome is a plain ValueError AND the text has a digit run "
+                           "longer than sys.get_int_max_str_digits() AND the extracted model's outcome for the same input and "
+                           "options is OutEscape ValueErrorNoStr (oracle reply [3, 8])",
+                "relation": "matcher = complement of the theorem's guard, evaluated on the extracted model for the very input"}},
         "known_findings_hit": verdict.known_hits,
     }
     C.write_evidence(CID, tier, t0, props, cov,
